@@ -133,6 +133,25 @@ def joinWith (sep : UInt8) : List Bytes → Bytes
   | [x] => x
   | x :: xs => x ++ sep :: joinWith sep xs
 
+/-- `Record::variant_span` for a file format < 4.5 (`noodles-vcf/src/variant/record.rs`
+`variant_span` / `variant_end` / `info_end`), then `write_rlen`: the span is `END - start + 1` when
+the INFO map has an `END` entry with a value (an integer ≥ 1, else `InvalidData`; `END` before the
+start is `InvalidData`), otherwise the number of reference bases (`InvalidData` when there is
+none); a missing position counts as `Position::MIN`. `i32::try_from(span)` is `InvalidInput`. -/
+def rlenOf (pos : Option Nat) (info : List (String × Option InfoVal)) (ref : Bytes) : Except WErr Nat :=
+  let start := pos.getD 1
+  let span : Except WErr Nat :=
+    match info.lookup "END" with
+    | some (some (.int n)) =>
+      if n < 1 then .error .invalidData
+      else if n.toNat < start then .error .invalidData
+      else .ok (n.toNat - start + 1)
+    | some (some _) => .error .invalidData
+    | _ => if ref.isEmpty then .error .invalidData else .ok ref.length
+  match span with
+  | .error e => .error e
+  | .ok n => if 2147483647 < n then .error .invalidInput else .ok n
+
 /-- `write_site` -/
 def writeSite (h : Header) (r : Rec) : Except WErr Bytes :=
   match h.contigs.getIndexOf r.chrom with
@@ -143,9 +162,10 @@ def writeSite (h : Header) (r : Rec) : Except WErr Bytes :=
       | none => .ok (-1)
       | some p => if 2147483647 < p then .error .invalidInput else .ok ((p : Int) - 1)
     bind' pos fun pos =>
+    bind' (rlenOf r.pos r.info r.ref) fun rlen =>
     if 65535 < r.info.length ∨ 65535 < r.alts.length + 1 ∨ 16777215 < h.nSample ∨ 255 < r.keys.length
     then .error .invalidInput else
-    let fixed := encS .w4 ci ++ encS .w4 pos ++ encS .w4 r.ref.length
+    let fixed := encS .w4 ci ++ encS .w4 pos ++ encS .w4 rlen
       ++ encF (r.qual.getD F_MISSING)
       ++ le 2 r.info.length ++ le 2 (r.alts.length + 1)
       ++ le 4 (r.keys.length * 16777216 + h.nSample)
@@ -173,6 +193,8 @@ def writeSamples (h : Header) (r : Rec) : Except WErr Bytes :=
 def writeRecord (h : Header) (r : Rec) : Except WErr Bytes :=
   bind' (writeSite h r) fun site =>
   bind' (writeSamples h r) fun smp =>
+  -- `u32::try_from(site_buf.len())`, `u32::try_from(samples_buf.len())`
+  if 4294967295 < site.length ∨ 4294967295 < smp.length then .error .invalidInput else
   .ok (le 4 site.length ++ le 4 smp.length ++ site ++ smp)
 
 /-! ## readers -/
@@ -213,6 +235,10 @@ def splitOnByte (sep : UInt8) (s : Bytes) : List Bytes :=
     if b = sep then ([], acc.1 :: acc.2) else (b :: acc.1, acc.2)) ([], [])
   r.1 :: r.2
 
+/-- eager `read_id`: `id.split(';')` collected into the `IndexSet` of `RecordBuf` (the first
+occurrence of an id is kept), shown `;`-joined again; the lazy `Ids` iterates the raw text -/
+def dedupIds (ids : Bytes) : Bytes := joinWith SEMI (splitOnByte SEMI ids).eraseDups
+
 def lookupNum (m : StringMap) (i : Nat) : RExcept String :=
   match m.getIndex i with
   | some s => .ok s
@@ -230,7 +256,9 @@ def readInfo (lazy : Bool) (h : Header) : Nat → Dec (List (String × Option In
       | none => .error .invalid
       | some d =>
         rbind (readInfoVal lazy d.num d.ty r) fun v r' =>
-        rbind (readInfo lazy h n r') fun rest r'' => .ok ((key, v) :: rest, r'')
+        rbind (readInfo lazy h n r') fun rest r'' =>
+          -- eager `read_info`: `info.insert(key, value).is_some()` is `DuplicateKey`
+          if !lazy && rest.any (·.1 == key) then .error .invalid else .ok ((key, v) :: rest, r'')
 
 structure SiteOut where
   chrom : String
@@ -255,7 +283,8 @@ def readSite (lazy : Bool) (h : Header) (bs : Bytes) : RExcept SiteOut :=
   rbind (decS .w4 r) fun pos r =>
   if pos < -1 then .error .invalid else
   rbind (decS .w4 r) fun rlen r =>
-  if rlen < 0 then .error .invalid else
+  -- eager `read_rlen`: `usize::try_from`; the lazy accessors look at `rlen` only in `end()`
+  if !lazy && rlen < 0 then .error .invalid else
   rbind (decF r) fun qual r =>
   match (match classifyF qual with
     | .value q => (.ok (some q) : RExcept (Option Nat))
@@ -271,14 +300,18 @@ def readSite (lazy : Bool) (h : Header) (bs : Bytes) : RExcept SiteOut :=
   match alleles with
   | [] => .error .invalid
   | ref :: alts =>
+  -- lazy `AlternateBases::iter`: a typed string of length 0 is `invalid alt value`
+  if lazy && alts.any (·.isNone) then .error .invalid else
   rbind (readIndices r) fun fis r =>
   match mapM' (lookupNum h.strings) fis with
   | .error e => .error e
   | .ok filters =>
   rbind (readInfo lazy h nInfo r) fun info _ =>
   .ok { chrom := cname, pos := if pos = -1 then none else some (pos.toNat + 1), qual := qual,
-        ids := ids.getD [], ref := ref.getD [DOT], alts := alts.map (·.getD [DOT]),
-        filters := filters, info := info, nFmt := nfs / 16777216, nSample := nfs % 16777216 }
+        ids := if lazy then ids.getD [] else dedupIds (ids.getD []),
+        -- eager `read_ref_alt`: `String(None)` is `.`; lazy `ReferenceBases`: the empty slice
+        ref := ref.getD (if lazy then [] else [DOT]), alts := alts.map (·.getD [DOT]),
+        filters := if lazy then filters else filters.eraseDups, info := info, nFmt := nfs / 16777216, nSample := nfs % 16777216 }
 
 def colKind (h : Header) (key : String) : RExcept ColKind :=
   if key = "GT" then .ok .gt
